@@ -18,9 +18,11 @@ TCfg == /\ l <= Len(Trace) /\ T.ev = "dcfg" /\ l' = l + 1
               /\ dfCur' = 0 /\ dfSlots' = [i \in 0..1 |-> Zero(c)]
               /\ firstDiff' = FALSE /\ prevFFC' = FALSE
               /\ bg' = Zero(c) /\ bgw' = Zero(c) /\ bgFrames' = 0 /\ thresh' = c.T /\ motion' = FALSE
+(* which tie pixels the code lowered is read off the logged background *)
+LoggedTies(tp) == IF dc.dyn THEN {{p \in tp : T.bg[p[1]][p[2]] = T.pix[p[1]][p[2]]}} ELSE {{}}
 TFrame == /\ l <= Len(Trace) /\ T.ev = "dframe" /\ l' = l + 1
-          /\ \E tie \in (IF dc.dyn THEN BOOLEAN ELSE {FALSE}) : \E slop \in (IF dc.dyn THEN {-1, 0, 1} ELSE {0}) :
-               Detect(T.pix, T.aff, tie, slop)
+          /\ \E slop \in (IF dc.dyn THEN {-1, 0, 1} ELSE {0}) :
+               Detect(T.pix, T.aff, LoggedTies, slop)
           /\ motion' = T.motion /\ thresh' = T.thresh
           /\ (dc.dyn => bg' = T.bg)
 TReset == l <= Len(Trace) /\ T.ev = "dreset" /\ l' = l + 1 /\ DReset
